@@ -503,6 +503,28 @@ class PteraTransformer(NodeTransformer):
 
         new_body = []
 
+        # global/nonlocal declarations must come before the first use of
+        # the names they declare, and the interactions generated below for
+        # free variables use them: hoist the declarations to the top.
+        def _hoist(block):
+            for i, stmt in enumerate(block):
+                if isinstance(stmt, (ast.Global, ast.Nonlocal)):
+                    new_body.append(stmt)
+                    block[i] = ast.copy_location(ast.Pass(), stmt)
+                elif not isinstance(
+                    stmt, (ast.FunctionDef, ast.AsyncFunctionDef, ast.ClassDef)
+                ):
+                    for field in ("body", "orelse", "finalbody"):
+                        inner = getattr(stmt, field, None)
+                        if isinstance(inner, list):
+                            _hoist(inner)
+                    for sub in getattr(stmt, "handlers", []):
+                        _hoist(sub.body)
+                    for sub in getattr(stmt, "cases", []):
+                        _hoist(sub.body)
+
+        _hoist(node.body)
+
         for external in sorted(self.external):
             new_body.extend(
                 self.make_interaction(
